@@ -19,7 +19,9 @@ RULE = ("the C01 corpus (valid, every prefix, mutations) plus deep/uneven nestin
         "tracking allocator (ledger: foreign/double free, write-after-free through poisoned quarantine, leaks after destruction) and a "
         "guard-page allocator (every allocator-owned block ends at a PROT_NONE page, freed blocks are unmapped) - in sanitizer builds "
         "(ASan+UBSan+LSan) and in production builds with a dirty heap (MALLOC_PERTURB_); fresh documents and one document reused across "
-        "2-5 parses with valid and invalid texts interleaved.  distinct = distinct command line; non-trivial = longer than 2 bytes")
+        "2-5 parses with valid and invalid texts interleaved; `gpool` = the non-freeing pool over the guard allocator with minimal chunks "
+        "(every pool block ends at a guard page) with reparse sequences growing by 1..66 bytes; `upool-N-E` = pool over a user-supplied "
+        "buffer of every size 96..700 between canaries (every start/end misalignment); one document larger than a 64 KiB chunk.  distinct = distinct command line; non-trivial = longer than 2 bytes")
 EXPLANATION = ("What a Lean model cannot exhibit (undefined behaviour of compiled code, the real heap) is observed by running the real code "
                "under ASan/UBSan/LSan, a tracking allocator and guard pages; this validates the checked-memory model (C02_no_fault family, "
                "listed in the evidence when proved) rather than replacing it. Any crash, sanitizer report, ledger problem or disagreement "
